@@ -70,7 +70,22 @@ class FalsyRun(object):
             yield ("fr", v)
 
 
+class StopIter(object):
+    """a plain callable from which StopIteration leaks for one value (e.g. next() on an exhausted iterator inside it):
+    an error of the element - it must surface as an exception, never be taken for the end of the flow"""
+
+    def __init__(self, k):
+        self.k = k
+
+    def __call__(self, v):
+        if R.split_val(v)[0] == self.k:
+            raise StopIteration
+        return v
+
+
 def build_ext(r):
+    if r[0] == "stopit":
+        return StopIter(r[1])
     if r[0] == "cls":
         return CLASSES[r[1]]
     if r[0] == "subseq":
@@ -85,6 +100,17 @@ def build_ext(r):
 
 
 def manual_ext(r, flow):
+    if r[0] == "stopit":
+        f = StopIter(r[1])
+
+        def gen_si():
+            for v in flow:
+                try:
+                    res = f(v)
+                except StopIteration:
+                    raise RuntimeError("StopIteration raised by an element")
+                yield res
+        return gen_si()
     if r[0] == "cls":
         return map(CLASSES[r[1]], flow)
     if r[0] in ("subseq", "falsyrun"):
@@ -167,12 +193,13 @@ ext_recipe = st.one_of(R.el_recipes(2), R.el_recipes(2), R.el_recipes(1),
                        st.just(["acc_runnone"]),
                        st.builds(lambda c: ["cls", c], st.sampled_from(sorted(CLASSES))),
                        st.builds(lambda xs: ["subseq", xs], st.lists(R.el_recipes(0, False, True), max_size=2)),
-                       st.just(["falsyrun"]))
+                       st.just(["falsyrun"]),
+                       st.builds(lambda k: ["stopit", k], st.sampled_from([0, 1, 2, 3, None])))
 
 
 @st.composite
 def fold_case(draw):
-    els = draw(st.lists(ext_recipe, max_size=6))
+    els = draw(st.lists(ext_recipe, min_size=draw(st.sampled_from([1, 2, 1, 2, 3, 0])), max_size=6))
     flow = draw(R.flows(8))
     return {"els": els, "flow": flow, "bracket": draw(bracketing(len(els))),
             "flow_as": draw(st.sampled_from(["list", "iter", "tuple"])),
@@ -212,7 +239,7 @@ def _as_flow(js, how):
 
 
 def _kinds(els):
-    return set(R.kind(r) if r[0] not in ("call_runnone", "acc_runnone", "cls", "subseq", "falsyrun") else r[0] for r in R.flat(els))
+    return set(R.kind(r) if r[0] not in ("call_runnone", "acc_runnone", "cls", "subseq", "falsyrun", "stopit") else r[0] for r in R.flat(els))
 
 
 def judge_fold(case):
